@@ -512,11 +512,13 @@ class CheckedCoverageInstrumentation(python3_11.CheckedCoverageInstrumentation):
                     )
                 )
             case "BINARY_SLICE":
-                # Instrumentation mostly after the original instruction
-                node.basic_block[override(instr_index)] = (
-                    self.instructions_generator.generate_overriding_instructions(
-                        InstrumentationSetupAction.COPY_THIRD_SHIFT_DOWN_THREE,
-                        instr,
+                # Instrumentation before the original instruction (like BINARY_SUBSCR):
+                # the instruction leaves its result on the stack, so a copy of the
+                # container that is shifted below its operands would end up below the
+                # result, and the teardown would pop the result instead of the copy.
+                node.basic_block[before(instr_index)] = (
+                    self.instructions_generator.generate_instructions(
+                        InstrumentationSetupAction.COPY_THIRD,
                         method_call,
                         instr.lineno,
                     )
